@@ -591,7 +591,59 @@ func c16Views(c *Ctx, sx *symx.Ctx) {
 					return ssau.IsConstBool(mu.Value, true)
 				}
 			case *types.Struct:
-				return b.NumFields() == 0 // a set: m[q] = struct{}{}
+				if b.NumFields() == 0 {
+					return true // a set: m[q] = struct{}{}
+				}
+				// a record per query: u := m[q]; u.count++; ...; m[q] = u
+				ld, ok := mu.Value.(*ssa.UnOp)
+				if !ok || ld.Op != token.MUL {
+					return false
+				}
+				cell, ok := ld.X.(*ssa.Alloc)
+				if !ok {
+					return false
+				}
+				fromMap, incs := false, 0
+				for _, ref := range *cell.Referrers() {
+					switch x := ref.(type) {
+					case *ssa.Store:
+						if x.Addr == ssa.Value(cell) {
+							lk, ok := x.Val.(*ssa.Lookup)
+							if !ok || lk.X != mu.Map || lk.Index != mu.Key && sx.Of(fn).E(lk.Index) != sx.Of(fn).E(mu.Key) {
+								return false
+							}
+							fromMap = true
+						}
+					case *ssa.FieldAddr:
+						for _, r2 := range *x.Referrers() {
+							st, ok := r2.(*ssa.Store)
+							if !ok || st.Addr != ssa.Value(x) {
+								continue
+							}
+							if bt, ok := x.Type().Underlying().(*types.Pointer).Elem().Underlying().(*types.Basic); !ok || bt.Info()&types.IsInteger == 0 {
+								continue
+							}
+							// the counter field: old value + 1, on every path to the write-back
+							bo, ok := st.Val.(*ssa.BinOp)
+							if !ok || bo.Op != token.ADD {
+								return false
+							}
+							one, isOne := ssau.ConstInt(bo.Y)
+							old, isLd := bo.X.(*ssa.UnOp)
+							if !isOne || one != 1 || !isLd {
+								return false
+							}
+							if ofa, ok := old.X.(*ssa.FieldAddr); !ok || ofa.X != ssa.Value(cell) || ofa.Field != x.Field {
+								return false
+							}
+							if !(st.Block() == mu.Block() || st.Block().Dominates(mu.Block())) {
+								return false
+							}
+							incs++
+						}
+					}
+				}
+				return fromMap && incs == 1
 			}
 			return false
 		}
@@ -656,32 +708,57 @@ func c16Views(c *Ctx, sx *symx.Ctx) {
 		f := sx.Of(fn)
 		fk := "history.(*SearchHistory).GetRecentQueries"
 		// index phi: (len(Entries)-1, i-1)
+		// the walking variable runs from len(Entries)-1 (element index) or from
+		// len(Entries) (one past it: the element read is Entries[i-1]) down by one
 		var idx *ssa.Phi
+		off := int64(0) // element index = idx - off
 		ssau.ForEachInstr(fn, false, func(in ssa.Instruction) {
 			phi, ok := in.(*ssa.Phi)
-			if !ok || len(phi.Edges) != 2 {
+			if !ok || len(phi.Edges) < 2 {
 				return
 			}
-			init, step := 0, 0
+			init, step, other := 0, 0, 0
+			o := int64(0)
 			for _, e := range phi.Edges {
+				if _, ok := lenOfEntries(e); ok {
+					init++
+					o = 1
+					continue
+				}
 				bo, ok := e.(*ssa.BinOp)
 				if !ok || bo.Op != token.SUB {
+					other++
 					continue
 				}
 				one, ok := ssau.ConstInt(bo.Y)
 				if !ok || one != 1 {
+					other++
 					continue
 				}
 				if _, ok := lenOfEntries(bo.X); ok {
 					init++
+					o = 0
 				} else if bo.X == ssa.Value(phi) {
 					step++
+				} else {
+					other++
 				}
 			}
-			if init == 1 && step == 1 {
-				idx = phi
+			if init == 1 && step >= 1 && other == 0 {
+				idx, off = phi, o
 			}
 		})
+		isElemIndex := func(v ssa.Value) bool {
+			if off == 0 {
+				return v == ssa.Value(idx)
+			}
+			bo, ok := v.(*ssa.BinOp)
+			if !ok || bo.Op != token.SUB || bo.X != ssa.Value(idx) {
+				return false
+			}
+			k, ok := ssau.ConstInt(bo.Y)
+			return ok && k == off
+		}
 		if !r.Check(idx != nil, "O-5", fk+"#newest-first-walk", c.P.Pos(fn.Pos()), "index runs from len(Entries)-1 downwards by one", "no loop index of the form i := len(Entries)-1; ...; i-- found: recent queries are not walked newest first") {
 			return
 		}
@@ -704,7 +781,7 @@ func c16Views(c *Ctx, sx *symx.Ctx) {
 			var qv ssa.Value
 			if u, ok := val.(*ssa.UnOp); ok {
 				if fa, ok := u.X.(*ssa.FieldAddr); ok && ssau.FieldName(fa) == "Query" {
-					if ia, ok := fa.X.(*ssa.IndexAddr); ok && ia.Index == ssa.Value(idx) {
+					if ia, ok := fa.X.(*ssa.IndexAddr); ok && isElemIndex(ia.Index) {
 						if _, ok := histFieldLoad(ia.X, "Entries"); ok {
 							good, qv = true, val
 						}
@@ -749,16 +826,20 @@ func c16Views(c *Ctx, sx *symx.Ctx) {
 					}
 					// now: loop exits when (x op y) is FALSE
 					// (a) i >= 0 / i > -1 / 0 <= i
+					// the element index idx-off stays >= 0
 					if x == ssa.Value(idx) {
-						if cst, isC := ssau.ConstInt(y); isC && ((op == token.GEQ && cst == 0) || (op == token.GTR && cst == -1)) {
+						if cst, isC := ssau.ConstInt(y); isC && ((op == token.GEQ && cst == off) || (op == token.GTR && cst == off-1)) {
 							good = true
 						}
 					} else if y == ssa.Value(idx) {
-						if cst, isC := ssau.ConstInt(x); isC && ((op == token.LEQ && cst == 0) || (op == token.LSS && cst == -1)) {
+						if cst, isC := ssau.ConstInt(x); isC && ((op == token.LEQ && cst == off) || (op == token.LSS && cst == off-1)) {
 							good = true
 						}
 					}
 					// (b) len(queries) < limit
+					if yc, isCall := y.(*ssa.Call); isCall && ssau.CallName(yc) == "builtin.len" && op == token.GTR {
+						x, y, op = y, x, token.LSS
+					}
 					if call, isCall := x.(*ssa.Call); isCall && ssau.CallName(call) == "builtin.len" && op == token.LSS {
 						if _, isStrs := call.Common().Args[0].Type().Underlying().(*types.Slice); isStrs {
 							lim := f.Plain(y)
